@@ -213,4 +213,9 @@ def run(tier, seed, only=None):
     if not only or 'O3' in only:
         from mirsym.api import guard
         out.append(guard(o3)(tier))
+    if not only or 'O4' in only:
+        from props import C02
+        r4 = C02.o3(tier); r4.oid = 'O4'
+        r4.title = 'own echo (shared with C02-O3): the message is confirmed BEFORE its processed record is (save_message, then save_processed_message), so a crash between the two writes is healed by the retry instead of being stopped by the dedup gate'
+        out.append(r4)
     return out
